@@ -27,6 +27,13 @@ def setHas (bits : Nat) (b : Nat) : Bool := (bits >>> b) % 2 == 1
 /-- `AsciiSet::add` -/
 def setAdd (bits : Nat) (b : Nat) : Nat := bits ||| (1 <<< b)
 
+/-- `AsciiSet::remove`: `self.0 & !(1 << byte)` on the `u128` -/
+def setRemove (bits : Nat) (b : Nat) : Nat := bits &&& ((2 ^ 128 - 1) ^^^ (1 <<< b))
+
+/-- a history of `add` (`false`) / `remove` (`true`) calls, left to right -/
+def setOps (bits : Nat) (ops : List (Bool × Nat)) : Nat :=
+  ops.foldl (fun s op => if op.1 then setRemove s op.2 else setAdd s op.2) bits
+
 /-- `AsciiSet::new()` constant, regenerated into `Gen.Consts` and compared there -/
 def asciiNew : Nat := 0x07fffffe07fffffe03ff000000000000
 
